@@ -45,7 +45,8 @@ class World:
                 if i != 3 and body[0] & 0x80:
                     body[0] |= 0x20
                 if i != 7:
-                    body += bytes([0xC0 | 0x02, 0x34, 0x00, 0x03, 0xAA, 0xBB, 0xCC])
+                    # (tag 0x1a34 resp. 0x0234: the element tag has 13 bits)
+                    body += bytes([0xC0 | (0x1a if i == 1 else 0x02), 0x34, 0x00, 0x03, 0xAA, 0xBB, 0xCC])
                 s.raw = bytes([0x88, 0x00, len(body) >> 8, len(body) & 0xff]) + bytes(body)
             if i in (0, 5):
                 # element order of older aggregators: authentication / publication record and calendar chain before the aggregation chains
